@@ -120,6 +120,8 @@ __CPROVER_assigns(self->_jobs_count, g.stopped, g_lock_held, g_notify_all, g.exi
 /* Stop: sets bit0, never removes jobs, releases the lock, wakes every worker */
 __CPROVER_ensures(self->_jobs_count == (OLD(self->_jobs_count) | 1) && g.stopped == 1 && g_lock_held == 0 && g_notify_all == OLD(g_notify_all) + 1)
 __CPROVER_ensures(g.exit_stopped == 1 && g.exit_queued == g.queued && g.exit_running == g.running);
+/* the public Stop() as a callee: one complete critical section of its own (job pool/Stop): whatever other threads did before it got the mutex has happened */
+static inline void Stop_public(Pool* self) { MON_LOCK(&self->_m); Stop_locked(self); }
 /* C08: SoftStop stops only when no job is queued or running - a worker turns `stopped` on only on request and when nothing is queued and nothing is running (on any worker) */
 #define SOFT_STOP_OK() __CPROVER_assert(g.stopped || (g.want && g.queued == 0 && g.running == 0), "C08: a worker stops the pool only on a SoftStop request and when no job is queued or running")
 #define WAIT_CV(cv, lk) do { \
@@ -141,6 +143,7 @@ def rw(name, **kw):
     kw.setdefault('omethods', ['Call', 'Drop', 'PushBack', 'PopFront', 'Empty', 'notify_one', 'notify_all'])
     kw.setdefault('refs', ['job', 'task', 'f'])
     post = list(kw.pop('post', [])) + COUNT_RULES
+    kw['pre'] = list(kw.get('pre', [])) + [(r'(?<![\w.>:])Stop\(\s*\)\s*;', 'Stop_public(self);', 0)]
     return Rewriter(name, types={'Job&': 'Job*'}, post=post, **kw)
 
 
